@@ -90,6 +90,10 @@ func (m *Machine) repInvariants(n *Node) {
 		} else {
 			n.JK = c.Var(n.Name+".jk", smt.SInt)
 		}
+		if tm.JNAllowBad {
+			n.JBad = c.Var(n.Name+".jbad", smt.SBool)
+			m.AddBase(c.Implies(n.JBad, c.And(isNum, c.Eq(n.Rep, c.Int(RepJSONNumber)))))
+		}
 		lim := new(big.Int).Lsh(big.NewInt(1), 70)
 		if tm.IntAbsLimit != nil {
 			lim = tm.IntAbsLimit
@@ -156,6 +160,12 @@ func (m *Machine) childRepInvariants(parent, child, first *Node, tag int) {
 	}
 	typed := c.And(parent.TagIs(tag), c.Eq(parent.CRep, c.Int(CRepTyped)))
 	if child == first {
+		if !parent.Tm.TypedPtrElems {
+			// element type T: a scalar type or a named string type
+			m.AddBase(c.Implies(typed, c.And(c.Not(child.TagIs(TagNull)), c.Eq(child.Wrap, c.Int(0)),
+				c.Or(c.Eq(child.CRep, c.Int(0)), child.TagIs(TagString)))))
+			return
+		}
 		// element type: T or *T (one wrapper layer, when the template has wrappers), T a scalar
 		// type, a named string type, or (arrays of) [n]any
 		m.AddBase(c.Implies(typed, c.And(c.Not(child.TagIs(TagNull)),
